@@ -404,5 +404,66 @@ def rule_witness(ctx):
     return res.finish(100)
 
 
+def rule_guard(ctx):
+    """The one deliberately non-restored field (the tokenizer function pointer) is protected by a serialised
+    guard flag: every public entry of a fitted vectoriser that can reach the tokenizer checks the guard first."""
+    from .sym import Tracer, as_term
+    res = RuleResult("R-C19-guard", "every public entry of a restored vectoriser that reaches the (non-serialisable) tokenizer function validates the deserialisation guard first")
+    F = ctx.facts("serde")
+    if F is None:
+        return res.finish(0)
+    fns = [f for f in F.all_fns() if f["d"]["krate"] == "linfa_preprocessing"]
+    by_raw = {f["d"].get("raw"): f for f in fns}
+
+    def callees(f):
+        c = f["crate"]
+        out = set()
+        for n in walk(f["body"]):
+            d = None
+            if n.get("k") == "MethodCall":
+                d = c.dfn(n.get("def"))
+            elif n.get("k") == "Path" and "def" in n:
+                d = c.dfn(n["def"])
+            if d is not None and d["krate"] == "linfa_preprocessing":
+                out.add(d.get("raw"))
+        return out
+    uses_tok = set()
+    for f in fns:
+        for n in walk(f["body"]):
+            if n.get("k") == "MethodCall" and n["name"] == "tokenizer_function":
+                recv = peel_refs(n["recv"])
+                if recv.get("k") == "Field" and recv["name"] == "properties":
+                    uses_tok.add(f["d"].get("raw"))
+    reach = set(uses_tok)
+    changed = True
+    while changed:
+        changed = False
+        for f in fns:
+            r = f["d"].get("raw")
+            if r not in reach and callees(f) & reach:
+                reach.add(r)
+                changed = True
+    n = 0
+    for f in fns:
+        d = f["d"]
+        st = (d.get("self_adt") or "").split("::")[-1]
+        if st not in ("CountVectorizer", "FittedTfIdfVectorizer") or f["vis"] != "pub" or d.get("raw") not in reach:
+            continue
+        if d["name"] in ("force_tokenizer_function_redefinition", "force_tokenizer_redefinition"):
+            continue
+        n += 1
+        key = fn_key(f)
+        res.instance(key)
+        tr = Tracer(f).run()
+        calls = [e for e in tr.events if e.kind == "call" and e.name not in ("branch", "from_residual")]
+        tries = [e for e in tr.events if e.kind == "try" and as_term(e.val) is not None and as_term(e.val).is_call("validate_deserialization")]
+        if calls and calls[0].name == "validate_deserialization" and tries:
+            res.ok()
+            res.sample({"entry": key, "first": "validate_deserialization()?"})
+        else:
+            res.violate("%s : tokenizer-guard-not-checked" % key, "the restored vectoriser's tokenizer can be reached without `validate_deserialization()?` first: a deserialised model with a custom tokenizer silently falls back to the regex tokenizer", fn_loc(f))
+    return res.finish(3)
+
+
 def rules(tier):
-    return [rule_build, rule_both, rule_struct, rule_types, rule_witness]
+    return [rule_build, rule_both, rule_struct, rule_types, rule_guard, rule_witness]
